@@ -31,7 +31,7 @@ func init() {
 		return parseObservable(unhex(strings.Fields(line)[0]))
 	})
 	// token stream of the stand-alone lexer: kind:text@loc ...
-	register("c03.lex", func(line string) string {
+	lexLeg := func(line string) string {
 		src := unhex(strings.Fields(line)[0])
 		l := lexer.NewLexer(src, "verif")
 		var errs []lexer.ParseError
@@ -58,5 +58,8 @@ func init() {
 			b.WriteString(fmt.Sprintf(" %d:%s%s", t.kind, hs(t.str), locS(wl, t.loc)))
 		}
 		return b.String()
-	})
+	}
+	register("c03.lex", lexLeg)
+	register("c04.toks", lexLeg) // C04 looks at the same token stream (ranges vs. the LSP reading of the text)
+	register("c01.parse", func(line string) string { return parseObservable(unhex(strings.Fields(line)[0])) })
 }
